@@ -170,6 +170,7 @@ func replayConnCase(kr *keyring, c *connCase, parked, byref bool) (diff string) 
 	if err != nil {
 		return "NewConn: " + err.Error()
 	}
+	scribbledALPN(conn) // a caller that edits the list it was handed must not change what a retried hello is compared with
 	if conn.ECHAccepted() != (c.First == "acc") {
 		return fmt.Sprintf("first flight: accepted=%v, scenario %s", conn.ECHAccepted(), c.First)
 	}
@@ -344,6 +345,7 @@ func replayConnCase(kr *keyring, c *connCase, parked, byref bool) (diff string) 
 			}
 		}
 	}
+	scribbledALPN(conn) // a caller that edits the list it was handed must not change what a retried hello is compared with
 	if conn.ECHAccepted() != (c.First == "acc") {
 		return "ECHAccepted changed during the history"
 	}
